@@ -16,7 +16,7 @@ open PdfVerif PdfVerif.C01b
 /-! ### what is read back -/
 
 mutual
-/-- value read back from the text of `o`: a nil array is written as `null`, a Real is read as
+/-- value read back from the text of `o`: a typed nil array or dictionary (`.nilArr`) is written as `null`, a Real is read as
     the written token (dot forced), a dictionary loses its nil entries -/
 def rd : Obj → Obj
   | .nilArr => .null
